@@ -120,6 +120,9 @@ class HProxy:
     def div(self, a, b):
         return self._get().div(a, b)
 
+    def decimal_digits(self, v, count):
+        return self._get().decimal_digits(v, count)
+
     def mod(self, a, b):
         return self._get().mod(a, b)
 
@@ -300,7 +303,11 @@ class SymH:
         return b
 
     def warnings(self, category=None):
-        return sum(1 for ev in self.e.events if ev[0] == "warn" and (category is None or issubclass(ev[1], category)))
+        total = z3.IntVal(0)
+        for ev in self.e.events:
+            if ev[0] == "warn" and (category is None or issubclass(ev[1], category)):
+                total = total + (z3.If(ev[2], 1, 0) if len(ev) > 2 else 1)
+        return ops.simp_int(total)
 
     def events(self, kind):
         return [ev[1:] for ev in self.e.events if ev[0] == kind]
@@ -320,7 +327,8 @@ class SymH:
     def byte_at(self, b, j):
         """b[j] without bounds check / forking (for use under quantifiers); caller guards the range"""
         b = ops.as_sbytes(b)
-        return ops.from_bv(b.at(zint(j)), 8)
+        bv = b.at(zint(j))  # no integer alias here: j may be a bound variable
+        return SInt(z3.BV2Int(bv, False), (bv, 8, False))
 
     def bit(self, x, k):
         """bit k (0 = LSB) of a non-negative int as 0/1, non-forking; k concrete or symbolic"""
@@ -339,6 +347,25 @@ class SymH:
             kb = z3.Int2BV(zint(k), w)
             return ops.from_bv(z3.Extract(0, 0, z3.LShR(t, kb)), 1)
         raise Undecided("H.bit with symbolic position on unbounded int")
+
+    def decimal_digits(self, v, count):
+        """the `count` least significant decimal digits of v (least significant first), defined by witness: fresh
+        d_k in 0..9 with v = sum d_k 10^k whenever 0 <= v < 10^count (the decimal expansion exists and is unique,
+        so this is a definition, cached per term so that all users talk about the same digits)"""
+        if isinstance(v, int):
+            return [(v // 10**k) % 10 for k in range(count)]
+        key = ("dec", v.z.get_id(), count)
+        hit = self.e.bv_alias.get(key)
+        if hit is None:
+            ds = [SInt(z3.Int(self.e.newname(f"dig{k}")), rng=(0, 9)) for k in range(count)]
+            total = z3.IntVal(0)
+            for k, d in enumerate(ds):
+                self.e.assume(z3.And(d.z >= 0, d.z <= 9))
+                total = total + d.z * (10**k)
+            self.e.assume(z3.Implies(z3.And(v.z >= 0, v.z < 10**count), v.z == total))
+            hit = (ds, v)
+            self.e.bv_alias[key] = hit
+        return list(hit[0])
 
     def div(self, a, b):
         """floor division by a positive concrete divisor, non-forking"""
@@ -583,6 +610,9 @@ class NativeH:
     def div(self, a, b):
         return a // b
 
+    def decimal_digits(self, v, count):
+        return [(v // 10**k) % 10 for k in range(count)]
+
     def mod(self, a, b):
         return a % b
 
@@ -591,6 +621,8 @@ class NativeH:
         prev = H._impl
         H._impl = self
         out = {"failed": self.failed, "passed": self.passed, "exception": None, "assume_failed": False}
+        import logging
+        logging.disable(logging.CRITICAL)
         try:
             with _warnings.catch_warnings(record=True) as wl:
                 _warnings.simplefilter("always")
@@ -605,6 +637,7 @@ class NativeH:
                     out["exception"] = {"class": type(ex).__name__, "module": type(ex).__module__, "text": str(ex)[:500],
                                         "traceback": traceback.format_exc()[-1500:]}
         finally:
+            logging.disable(logging.NOTSET)
             for module, name, old in reversed(self._set_globals):
                 setattr(module, name, old)
             H._impl = prev
